@@ -35,6 +35,9 @@ class CombiningQuery(ASTNode):
     def get_string(self, *args, **kwargs):
         left_str = str(self.left)
         right_str = str(self.right)
+        if isinstance(self.right, CombiningQuery) and not self.right.parentheses:
+            # a chain is read left to right: a combining query on the right keeps its parentheses
+            right_str = f'({right_str})'
         keyword = self.operation
         if not self.unique:
             keyword += ' ALL'
